@@ -54,6 +54,24 @@ _STR_TAIL = (
 )
 
 
+def to_wire_deep(v, depth=0, seen=frozenset()):
+    """wire.to_wire, but following plain arrays / objects to depth 200 (wire.to_wire stops at 12: nesting-30 cases)"""
+    from microjs import values as V
+    if isinstance(v, V.JSObject) and type(v) in (V.JSObject, V.JSArray):
+        if id(v) in seen or depth > 200:
+            return {"k": "cyc"}
+        seen = seen | {id(v)}
+        if isinstance(v, V.JSArray):
+            return {"k": "arr", "e": [to_wire_deep(e, depth + 1, seen) for e in v._elements]}
+        props = []
+        for key, val in v._properties.items():
+            if not isinstance(key, str):
+                return {"k": "hostval", "t": "non-string key " + type(key).__name__}
+            props.append({"n": wire.units(key), "v": to_wire_deep(val, depth + 1, seen)})
+        return {"k": "obj", "p": props}
+    return wire.to_wire(v)
+
+
 def _escape_of(out):
     """an exception that left the script: which class the embedder saw"""
     o = out["o"]
@@ -202,7 +220,7 @@ def c19_driver(case, api):
     if case["kind"] == "str":
         if "built" not in got:
             raise RuntimeError("operand construction failed: %r" % (ev,))
-        built = wire.to_wire(got["built"][0])
+        built = to_wire_deep(got["built"][0])
         if not _same_shape(built, _shape(case["v"])):
             raise RuntimeError("operand is not the value of the case: built %r" % (built,))
     if "p" not in got:
@@ -215,14 +233,14 @@ def c19_driver(case, api):
     if p[0] == "t":
         res["out"] = {"o": "throw", "cls": str(p[1])}
         return res
-    res["out"] = {"o": "value", "v": wire.to_wire(p[1])}
+    res["out"] = {"o": "value", "v": to_wire_deep(p[1])}
     if case["kind"] == "parse":
         res["protos"] = bool(p[2])
     second = case["kind"] == "parse" or isinstance(p[1], str)
     if second:
         if "rt" in got:
             r = got["rt"]
-            res["rt"] = {"o": "throw", "cls": str(r[1])} if r[0] == "t" else {"o": "value", "v": wire.to_wire(r[1])}
+            res["rt"] = {"o": "throw", "cls": str(r[1])} if r[0] == "t" else {"o": "value", "v": to_wire_deep(r[1])}
         else:
             if ev["o"] == "value":
                 raise RuntimeError("no round-trip outcome recorded although the script completed")
